@@ -184,6 +184,15 @@ class C02:
         rep.check("C02.R5", "sync|corrupt_gone", s, ok, "embrace_change only when the side is not corrupt_gone", "a corrupt side whose file is gone is embraced (its delete / rename is propagated)")
 
 
+def r6(ctx: Ctx, rep: Report):
+    from rules.common import hash_conflict_definition, refresh_marks_changed
+    rep.rule("C02.R6", "both versions are only kept if the conflict is seen: hash_conflict() = both sides have hash and path and both hashes differ from the "
+             "last-synced ones (never-synced objects included); a refresh that discovers new content or a new path stamps the side changed, which is what the "
+             "delete-versus-newer-edit guards key on", expect_min=3)
+    hash_conflict_definition(ctx, rep, "C02.R6")
+    refresh_marks_changed(ctx, rep, "C02.R6")
+
+
 def run(ctx: Ctx, rep: Report, tier: str):
     c = C02(ctx, rep)
     c.r1()
@@ -191,3 +200,4 @@ def run(ctx: Ctx, rep: Report, tier: str):
     c.r3()
     c.r4()
     c.r5()
+    r6(ctx, rep)
